@@ -215,10 +215,19 @@ func c17HistNames(r *hx.Rng, total int) []string {
 	return names
 }
 
-func c17History(r *hx.Rng) c17HistInput {
+func c17History(r *hx.Rng) c17HistInput { return c17HistoryOf(r, false) }
+
+// c17HistoryOf: collide = the configurations come from the collision stream
+// (c17Collide: groups extending one another, sub-benchmarks colliding with them)
+func c17HistoryOf(r *hx.Rng, collide bool) c17HistInput {
 	total := []int{2, 3, 3, 3, 4, 4, 5, 6}[r.Intn(8)]
 	names := c17HistNames(r, total)
-	col := c17CollectionN(r.Split(), false, names)
+	var col c17Input
+	if collide {
+		col = c17Collide(r.Split(), names)
+	} else {
+		col = c17CollectionN(r.Split(), false, names)
+	}
 	in := c17HistInput{Kind: "history", Test: col.Test, Alpha: col.Alpha, AlphaS: col.AlphaS, SplitBy: col.SplitBy,
 		Order: col.Order, GeoMean: col.GeoMean, NoRange: col.NoRange}
 	nst := []int{1, 2, 2, 2, 3, 3, 4}[r.Intn(7)]
